@@ -40,10 +40,12 @@ CLAIMED["C15"] = dict(
          "lines partition the records read, in order; run-mode no-run reads nothing; the outer comment scanner returns scan and "
          "match text unchanged for every comment free of ~[]$ (any Unicode classification); a comment of free text followed by `key: value` fields yields exactly those fields in metadata, in order, values trimmed (c15_fields). Tie: suite `modes` (written modes, "
          "flipped return-mode, flipped print-mode, metadata fields) against the real code and the model; the metadata field "
-         "scanner model is fuzzed against MetadataParser on every case.",
+         "scanner model is fuzzed against MetadataParser on every case. Source tie (T): the `value` getters of ReturnMode, RunMode and "
+         "UnmatchedMode are translated from /repo's working tree to Lean on every run (heap mode, Generated/CoreModes.lean) and proved to "
+         "read the comment's field as Model.Modes says, for every text of the field (Props/C15Tie).",
     note="print-mode is covered by model correspondence and the oracle, not by a theorem; "
          "str.isalnum/isspace are parameters of the model supplied per character by the harness.",
-    technique="Lean 4 proof (run-loop invariants; character state machine) + correspondence",
+    technique="Lean 4 proof (run-loop invariants; character state machine) + source translator with bridging theorems (mode getters) + correspondence",
     design="6/C15",
 )
 
